@@ -39,11 +39,11 @@ Qed.
 Lemma cget_entry c p e : entry c p = Some e -> cget c p = Ok e.
 Proof. unfold cget, entry. now intros ->. Qed.
 
-Lemma dp_build_ok comb b : Canonical b -> comb_total comb -> forall nodes i c,
+Lemma dp_build_ok comb b : Benign b -> comb_total comb -> forall nodes i c,
   skipn (N.to_nat i) b = nodes -> 2 <= i -> i <= size b -> cache_upto comb b c i ->
   exists c', dp_build (step_of comb) nodes c = Ok c' /\ cache_upto comb b c' (size b).
 Proof.
-  intros C T. pose proof C as (W & R & _).
+  intros C T. pose proof C as (W & R & TP & _).
   induction nodes as [|n nodes IH]; intros i c Hsk Hi Hsz U.
   - apply skipn_nil_len in Hsk. assert (i = size b) by (unfold size in *; lia). subst i.
     exists c. split; [reflexivity|exact U].
@@ -51,7 +51,7 @@ Proof.
     assert (Hget : get b i = n) by exact Hn.
     assert (Hi' : i < size b) by (unfold size; lia).
     destruct U as (Ulen & U0 & U1 & Un).
-    destruct (kids_lt b C i Hi Hi') as (Kl & Kh). rewrite Hget in Kl, Kh.
+    destruct (kids_lt b TP i Hi Hi') as (Kl & Kh). rewrite Hget in Kl, Kh.
     destruct (entry_some c (nlow n) ltac:(lia)) as (cl & Ecl).
     destruct (entry_some c (nhigh n) ltac:(lia)) as (ch & Ech).
     destruct (T n cl ch) as (x & Hx).
@@ -67,11 +67,11 @@ Proof.
       * exists cl, ch, x. rewrite Hget. rewrite !entry_app1 by lia.
         split; [exact Ecl|]. split; [exact Ech|]. split; [exact Hx|]. rewrite <- Ulen. apply entry_app_last.
       * destruct (Un j Hj ltac:(lia)) as (cl' & ch' & x' & A & B & D & E).
-        destruct (kids_lt b C j Hj ltac:(lia)) as (Kl' & Kh').
+        destruct (kids_lt b TP j Hj ltac:(lia)) as (Kl' & Kh').
         exists cl', ch', x'. rewrite !entry_app1 by lia. repeat split; assumption.
 Qed.
 
-Lemma dp_cache_ok comb b : Canonical b -> comb_total comb -> is_false b = false ->
+Lemma dp_cache_ok comb b : Benign b -> comb_total comb -> is_false b = false ->
   exists c, dp_cache b (step_of comb) = Ok c /\ cache_upto comb b c (size b).
 Proof.
   intros C T Hf. pose proof C as (W & _). pose proof (is_false_false_size b W Hf) as Hs.
@@ -171,7 +171,7 @@ Qed.
 
 Section ClauseDP.
   Variables (mx : bool) (comb : comb_t) (b : bdd) (c : cache).
-  Hypotheses (W : wf b) (R : reduced b) (CO : clause_comb_ok mx comb) (U : cache_upto comb b c (size b)).
+  Hypotheses (W : wf b) (R : nz b) (CO : clause_comb_ok mx comb) (U : cache_upto comb b c (size b)).
 
   Lemma clause_node p : 2 <= p -> p < size b -> exists cl ch e,
     entry c (nlow (get b p)) = Some cl /\ entry c (nhigh (get b p)) = Some ch /\ entry c p = Some e /\
@@ -224,7 +224,7 @@ Section ClauseDP.
   Qed.
 End ClauseDP.
 
-Lemma dp_clause_spec mx comb b : Canonical b -> is_false b = false -> comb_total comb -> clause_comb_ok mx comb ->
+Lemma dp_clause_spec mx comb b : Benign b -> is_false b = false -> comb_total comb -> clause_comb_ok mx comb ->
   exists pv ds,
     bind (dp_cache b (step_of comb)) (fun c => some_of (walk (wfuel b) b (choose_cached c) cset (root b) [])) = Ok (Some pv) /\
     path b (root b) ds 1 /\ lits_of pv ds /\
@@ -246,7 +246,7 @@ Theorem most_free_clause_none b : is_false b = true -> most_free_clause b = Ok N
 Proof. intros H. unfold most_free_clause. now rewrite H. Qed.
 
 (* a root-to-1 path with the maximal number of literals *)
-Theorem most_fixed_clause_spec b : Canonical b -> is_false b = false ->
+Theorem most_fixed_clause_spec_benign b : Benign b -> is_false b = false ->
   exists pv ds, most_fixed_clause b = Ok (Some pv) /\ path b (root b) ds 1 /\ lits_of pv ds /\
     forall ds', path b (root b) ds' 1 -> (length ds' <= length ds)%nat.
 Proof.
@@ -254,10 +254,16 @@ Proof.
   destruct (dp_clause_spec true mfix_comb b C Hf mfix_total mfix_comb_ok) as (pv & ds & H & P & Hl & Hopt).
   exists pv, ds. split; [exact H|]. split; [exact P|]. split; [exact Hl|]. intros ds' P'. specialize (Hopt ds' P'). unfold better in Hopt. lia.
 Qed.
+Print Assumptions most_fixed_clause_spec_benign.
+
+Theorem most_fixed_clause_spec b : Canonical b -> is_false b = false ->
+  exists pv ds, most_fixed_clause b = Ok (Some pv) /\ path b (root b) ds 1 /\ lits_of pv ds /\
+    forall ds', path b (root b) ds' 1 -> (length ds' <= length ds)%nat.
+Proof. intros C. apply most_fixed_clause_spec_benign. apply canonical_benign. exact C. Qed.
 Print Assumptions most_fixed_clause_spec.
 
 (* a root-to-1 path with the minimal number of literals *)
-Theorem most_free_clause_spec b : Canonical b -> is_false b = false ->
+Theorem most_free_clause_spec_benign b : Benign b -> is_false b = false ->
   exists pv ds, most_free_clause b = Ok (Some pv) /\ path b (root b) ds 1 /\ lits_of pv ds /\
     forall ds', path b (root b) ds' 1 -> (length ds <= length ds')%nat.
 Proof.
@@ -265,4 +271,10 @@ Proof.
   destruct (dp_clause_spec false mfree_comb b C Hf mfree_total mfree_comb_ok) as (pv & ds & H & P & Hl & Hopt).
   exists pv, ds. split; [exact H|]. split; [exact P|]. split; [exact Hl|]. intros ds' P'. specialize (Hopt ds' P'). unfold better in Hopt. lia.
 Qed.
+Print Assumptions most_free_clause_spec_benign.
+
+Theorem most_free_clause_spec b : Canonical b -> is_false b = false ->
+  exists pv ds, most_free_clause b = Ok (Some pv) /\ path b (root b) ds 1 /\ lits_of pv ds /\
+    forall ds', path b (root b) ds' 1 -> (length ds <= length ds')%nat.
+Proof. intros C. apply most_free_clause_spec_benign. apply canonical_benign. exact C. Qed.
 Print Assumptions most_free_clause_spec.
